@@ -70,8 +70,8 @@ impl Scenario for C01 {
 
     fn runs(tier: Tier) -> u64 {
         match tier {
-            Tier::Quick => 200_000,
-            Tier::Thorough => 6_000_000,
+            Tier::Quick => 600_000,
+            Tier::Thorough => 12_000_000,
         }
     }
     fn rule() -> &'static str {
